@@ -238,6 +238,20 @@ impl Expression {
                 assert!(member_index < def.members.len() as u32);
 
                 let member_type = def.members[member_index as usize].type_id;
+
+                // Members of a const struct object are const
+                let (parent_type, parent_modifier) =
+                    module.type_registry.extract_modifier(expr_type.0);
+                let parent_is_struct = matches!(
+                    module.type_registry.get_type_layer(parent_type),
+                    TypeLayer::Struct(_)
+                );
+                let member_type = if parent_modifier.is_const && parent_is_struct {
+                    module.type_registry.make_const(member_type)
+                } else {
+                    member_type
+                };
+
                 Ok(ExpressionType(member_type, expr_type.1))
             }
             Expression::ObjectMember(ref expr, ref name) => {
